@@ -753,10 +753,10 @@ def default_to_current(ctx):
                 ctx.check(any(v.startswith("1") for v in lc) and any(v.startswith("2") for v in ls), f"{short(b.name)}/arms", [site(b, from_cur[0]), site(b, from_seg[0])],
                           f"the one-segment and two-segment arms are swapped or not distinguished by length (bare under len in {sorted(lc)}, qualified under len in {sorted(ls)})")
             else:
-                # the iterator idiom (`match (parts.next(), parts.next(), ..)`): the bare arm is where the second segment is None, the qualified one where it is Some
+                # the iterator idiom (`match (parts.next(), parts.next(), ..)`) or `name.split_once("::")`: the bare arm is where no further segment / no separator is found (None), the qualified one where one is (Some)
                 def second_is(bb, want):
                     return any(e.label and e.label[0] == "variant" and e.label[2] == (want,) and bb in b.dominated_by_edge(e) and
-                               origin_matches(edge_origin(b, e), lambda o: o[0] == "call" and o[1].endswith("::next")) for e in b.edges)
+                               origin_matches(edge_origin(b, e), lambda o: o[0] == "call" and re.search(r"::(next|split_once|rsplit_once|find|rfind|nth)$", o[1]) is not None) for e in b.edges)
                 ctx.check(second_is(from_cur[0], "None") and second_is(from_seg[0], "Some"), f"{short(b.name)}/arms", [site(b, from_cur[0]), site(b, from_seg[0])],
                           "the bare-name arm is not the one where no further segment exists (or the qualified arm not the one where one exists)")
 
